@@ -775,6 +775,9 @@ pub struct CacheProfile {
   pub bounded: bool,
   pub async_clients: bool,
   pub bulk_ops: bool,
+  /// only fetch_with, removals (remove / invalidate / clear) and plain reads over two keys:
+  /// loads racing invalidations
+  pub loader_race: bool,
 }
 
 pub struct CacheFamily {
@@ -788,6 +791,17 @@ impl CacheFamily {
     let k = rng.below(KEYS) as u8;
     let cost = *rng.pick(&[1u64, 1, 1, 2, 3, 0]);
     let p = &self.profile;
+    if p.loader_race && sc_loader {
+      let k = rng.below(2) as u8;
+      return match rng.below(10) {
+        0..=4 => COp::FetchWith { k },
+        5 => COp::Invalidate { k },
+        6 => COp::Remove { k },
+        7 => COp::Clear,
+        8 => COp::Fetch { k },
+        _ => COp::Get { k },
+      };
+    }
     loop {
       let op = match rng.below(26) {
         0..=4 => COp::Insert { k, cost },
@@ -835,7 +849,7 @@ impl Family for CacheFamily {
   }
 
   fn rule(&self) -> &'static str {
-    "one case = one generated cache configuration (policy, 1/2/4 shards, capacity from smaller-than-one-item to never-evicting, optional loader / listener / TTL knobs, janitor tick, maintenance chance) with 2-4 sync or async client threads x <=8 operations over 4 keys, the janitor, notifier and loader threads, under one seeded schedule and fault plan, followed by maintenance driven to a fixpoint; non-trivial = >=3 context switches and >=2 writes and >=1 read hit; distinct = distinct scheduler decision-trace hash"
+    "one case = one generated cache configuration (policy, 1/2/4 shards, capacity from smaller-than-one-item to never-evicting, optional loader / listener / TTL knobs, janitor tick, maintenance chance) with 2-4 sync or async client threads x <=8 operations over 4 keys, the janitor, notifier and loader threads, under one seeded schedule and fault plan, followed by maintenance driven to a fixpoint; non-trivial = >=3 context switches and >=2 writes (loads included) and >=1 read hit; distinct = distinct scheduler decision-trace hash"
   }
 
   fn needs_fresh_thread(&self) -> bool {
@@ -949,7 +963,7 @@ impl Family for CacheFamily {
     }
     states.sort();
     states.dedup();
-    let writes = hist.evs.iter().filter(|e| !e.wrote.is_empty()).count();
+    let writes = hist.evs.iter().filter(|e| !e.wrote.is_empty()).count() + hist.loads.len();
     let hits = hist.evs.iter().filter(|e| matches!(e.res, Res::Val(..))).count();
     let nontrivial = out.stats.switches >= 3 && writes >= 2 && hits >= 1;
     Evaluated { out, violations, states, nontrivial }
